@@ -332,7 +332,15 @@ def expiry_histories(rng, pool, count):
             lu[m] = ts
         oldest = min(lu, key=lu.get)
         newest = max(lu, key=lu.get)
-        d = rng.choice(['pop-oldest', 'pop-newest', 'pop-any', 'refresh-oldest', 'late-new', 'none', 'pop-oldest'])
+        d = rng.choice(['pop-oldest', 'pop-newest', 'pop-any', 'refresh-oldest', 'late-new', 'none', 'pop-oldest',
+                        'query-refresh', 'query-refresh'])
+        if d == 'query-refresh' and not ordered:
+            # the table is looked at (n_latest_tracks, as the README does between updates), then a known vessel that
+            # is not the newest reports again with a time stamp between its own and the newest one
+            ops.append('n:%d' % rng.randint(1, k))
+            m = rng.choice(sorted(x for x in lu if x != newest))
+            ts = rng.randint(lu[m], lu[newest])
+            ops.append('u:%s:%d' % (rng.choice(pool[m]).hex(), ts)); lu[m] = ts
         if d == 'pop-oldest':
             ops.append('p:%d' % oldest); lu.pop(oldest)
         elif d == 'pop-newest':
